@@ -549,9 +549,9 @@ def read_lines(path: Path, header: str, rows: dict, is_out: bool):
             elif first in rows:
                 out.append("BADVAL:" + first)
             elif first == "subject_name":
-                out.append("BADHEADER")
+                out.append("X")                      # a header, but not this configuration's
             else:
-                out.append("ALIEN:" + first[:20])
+                out.append("ALIEN:" + first[:20] if first != "q" else "q")
         else:
             out.append(first)
     if tail:
@@ -569,7 +569,7 @@ class History:
         self.scn, self.workdir = scn, workdir
         shutil.rmtree(workdir, ignore_errors=True)
         workdir.mkdir(parents=True)
-        names = sorted({c["subj"] for c in scn.calls if c["kind"] == "eval"} | set(scn.prior))
+        names = sorted({c["subj"] for c in scn.calls if c["kind"] == "eval"} | (set(scn.prior) if scn.init != "foreign" else set()))
         self.header, self.rows = reference_rows(names, workdir)
         self.out_paths = {}
         for i, a in enumerate(scn.aggs):
@@ -582,6 +582,9 @@ class History:
                 self.out_paths[a].write_text(self.header + "\n")
             elif scn.init == "rows":
                 self.out_paths[a].write_text(self.header + "\n" + "".join(self.rows[s] + "\n" for s in scn.prior))
+            elif scn.init == "foreign":
+                # a file written with another configuration: different header, one row
+                self.out_paths[a].write_text("subject_name\tother-metric\nq\t1.0\n")
         self.use_real_pool = use_real_pool
         self.events: list[dict] = []       # all sessions, with crash / restart markers
         self.ends: list[int] = []          # event indices at which a session ended unkilled
@@ -591,6 +594,7 @@ class History:
         self.failed_calls: list[tuple] = []
         self.snaps: list[dict] = []
         self.schedule: list = []
+        self.ctor_failed = False
         self.anomalies: list[dict] = []
         self.sessions = 0
         self.init_files = None
@@ -643,7 +647,7 @@ class History:
                             self.buf_paths.setdefault(agg, set()).add(path)
                 files, bufs = self.snapshot()
                 self.events.append({"p": a, "op": op, "files": files, "bufs": bufs, "snaps": list(self.snaps) + list(run.snaps),
-                                    "failed": len([s for s in run.status.values() if s.startswith("err")])})
+                                    "failed": len([s for a_, s in run.status.items() if a_ != MAIN and s.startswith("err")])})
                 step += 1
                 if step > max_steps:
                     raise Hang("session exceeds max_steps")
@@ -661,8 +665,10 @@ class History:
             self.failed_calls.append((self.sessions, MAIN, run.main_error[0]))
         if run.killed and self.events:
             self.events[-1]["_killed"] = True
-        elif not run.killed and self.events and not self.deadlock and not self.hang:
+        elif not run.killed and self.events and not self.deadlock and not self.hang and not run.main_error:
             self.ends.append(len(self.events))
+        if run.main_error:
+            self.ctor_failed = True
         return run
 
     def _ctor_agg(self, run):
@@ -716,11 +722,12 @@ class History:
         return {"outs": ["out_" + a for a in self.scn.aggs],
                 "subjects": {"out_" + a: self.scn.subjects(a) for a in self.scn.aggs},
                 "prior": list(self.scn.prior),
-                "init": self.init_files, "ev": evs, "ends": ends or [0]}
+                "init": self.init_files, "ev": evs, "ends": ends or [0], "foreign": self.scn.init == "foreign",
+                "ctorfailed": self.ctor_failed}
 
     def scen_json(self, own, header_on_empty=True, header_no_claim=True):
         init = {"absent": {"ex": False, "ls": []}, "empty": {"ex": True, "ls": []}, "header": {"ex": True, "ls": ["H"]},
-                "rows": {"ex": True, "ls": ["H"] + list(self.scn.prior)}}[self.scn.init]
+                "rows": {"ex": True, "ls": ["H"] + list(self.scn.prior)}, "foreign": {"ex": True, "ls": ["X", "q"]}}[self.scn.init]
         return {"aggs": self.scn.aggs, "calls": self.scn.calls, "initout": init, "normalexit": self.scn.normal_exit,
                 "headeronempty": header_on_empty, "ownbuffer": own, "headernoclaim": header_no_claim}
 
